@@ -79,7 +79,7 @@ theorem memCoreOk_spec (e : Entry) (op : BitVec 32) (nimm : Nat) (h : memCoreOk 
 
 /-- the final opcode word of the _Lx classes of shape [reg, MEM(, imm)]: L from the register's size or-ed with the MEMORY operand's size -/
 def finalOpM (e : Entry) (lxEnc : Nat) (size : Nat) : BitVec 32 :=
-  if e.enc == lxEnc then e.mainOp ||| opcodeLBySize ((Op.reg (rtypeOf (e.kinds.getD 0 .none)) 0).rmSize ||| size) else e.mainOp
+  if e.enc == lxEnc || e.enc == 0x84 then e.mainOp ||| opcodeLBySize ((Op.reg (rtypeOf (e.kinds.getD 0 .none)) 0).rmSize ||| size) else e.mainOp
 
 def anyMemAlt (f : FormOp) : Bool := f.alts.any fun a => match a with | .mem (some _) .none => true | _ => false
 
@@ -118,7 +118,7 @@ def entryOkRvmMem (e : Entry) : Bool :=
   match e.rule.ops, e.kinds with
   | [f0, f1, f2], [k0, k1, _] =>
     !anyMemAlt f2 ||
-    ((e.enc == 0x72 || e.enc == 0x75) && (memCoreOk e (finalOp e 0x75) 0 &&
+    ((e.enc == 0x72 || e.enc == 0x75 || e.enc == 0x73 || e.enc == 0x76) && (memCoreOk e (finalOp e 0x75) 0 &&
     (f0.role == .reg && (f1.role == .vvvv && (f2.role == .rm && (plainKind k0 && (plainKind k1 && (noFix f0 && (noFix f1 &&
     (formOpMatches e.rule.oszEff f0 (.reg k0 0) && formOpMatches e.rule.oszEff f1 (.reg k1 0)))))))))))
   | _, _ => false
@@ -127,7 +127,7 @@ def entryOkRvmiMem (e : Entry) : Bool :=
   match e.rule.ops, e.kinds with
   | [f0, f1, f2, f3], [k0, k1, _] =>
     !anyMemAlt f2 ||
-    ((e.enc == 0x7A || e.enc == 0x7C) && (memCoreOk e (finalOp e 0x7C) 1 &&
+    ((e.enc == 0x7A || e.enc == 0x7C || e.enc == 0x7B || e.enc == 0x7D) && (memCoreOk e (finalOp e 0x7C) 1 &&
     (f0.role == .reg && (f1.role == .vvvv && (f2.role == .rm && (f3.role == .imm && (immBitsOf f3 == 8 && (plainKind k0 && (plainKind k1 && (noFix f0 && (noFix f1 &&
     (formOpMatches e.rule.oszEff f0 (.reg k0 0) && formOpMatches e.rule.oszEff f1 (.reg k1 0)))))))))))))
   | _, _ => false
@@ -136,7 +136,7 @@ def entryOkRmMem (e : Entry) : Bool :=
   match e.rule.ops, e.kinds with
   | [f0, f2], [k0, _] =>
     allMemAlts f2 (fun size =>
-      (e.enc == 0x68 || e.enc == 0x6B) && (memCoreOk e (finalOpM e 0x6B size) 0 &&
+      (e.enc == 0x68 || e.enc == 0x6B || e.enc == 0x83 || e.enc == 0x84) && (memCoreOk e (finalOpM e 0x6B size) 0 &&
       (f0.role == .reg && (f2.role == .rm && (plainKind k0 && (noFix f0 && formOpMatches e.rule.oszEff f0 (.reg k0 0)))))))
   | _, _ => false
 
